@@ -48,7 +48,7 @@ func init() {
 				n = 100000
 			}
 			out = append(out, seeded("C15", seed, n, func(i int, sd uint64) *k.Spec {
-				s := &k.Spec{Params: cp(cells[int(k.H(sd, "cell", 0)%uint64(len(cells)))])}
+				s := &k.Spec{Seed: sd, Params: cp(cells[int(k.H(sd, "cell", 0)%uint64(len(cells)))])}
 				swarm(s, "client.go:Client.reattach,cmd_reattach.go,process.go,client.go:Client.Kill,server.go:Serve")
 				if s.DelayClass == "big" {
 					s.DelayClass = "mid"
